@@ -17,5 +17,7 @@ def check(ctx):
     accounting.split_when_counted(ctx, 'C05-R9')
     # R10: the heights handed to the slicing stay valid heights: the min-max scaling never divides by an empty range
     scaling.positive_span(ctx, 'C05-R10')
+    # R11: a refused stage call leaves the per-hit ids and the tables as they were (otherwise they disagree afterwards)
+    typestate.refusal_before_mutation(ctx, 'C05-R11')
     ctx.undecided += ['that scikit-learn returns one label per row; that every mixture component is populated '
                       '(run-time assert in layer.ncomp_from_gmm); that k sub-components give k layers numerically']
